@@ -49,7 +49,7 @@ CHECKS = {
     "C09": dict(engine="VALX", level="exploration", ref="DESIGN.md 4/C09",
                 technique="bounded-exhaustive enumeration of (validator kind, assignment form, value/position) over the real descriptor classes with a snapshot/readback oracle; exhaustive well-nested disable-block sequences",
                 text="Every validator kind and width of a definition file compiled from the current tree x every assignment form (attribute, element at every index, every (start,stop,step) slice, whole array from list/tuple/bound array/ctypes array, nested struct, struct-array element/slice) x every boundary value, every position of a single bad element (also next to NaN), wrong lengths; every well-nested sequence of disable blocks left normally or by exception.",
-                note="Trusted: CPython/ctypes conversions as ground truth for the nearest representable value; explicit +-inf and '' for a char are treated as unspecified."),
+                note="Trusted: CPython/ctypes conversions as ground truth for the nearest representable value; '' for a char is treated as unspecified (explicit +-inf are out of the domain: an accepted value reads back finite)."),
     "C10": dict(engine="VALX", level="exploration", ref="DESIGN.md 4/C10",
                 technique="bounded-exhaustive enumeration of (class, field path, value) x codecs over all shipped, test and generated message classes with a byte-equality oracle",
                 text="Every message/struct class of core_defs, tests/test_msg_defs and the generated VALX file x value profiles and per-field alphabets (extremes, -0.0, NaN, empty/max-length strings, control characters, quotes, backslashes, 0x00/0xFF byte arrays) x {bytes, dict, JSON pretty/minified, Message JSON, copy}; byte equality, storage independence of copies, refusal of foreign header versions.",
